@@ -198,6 +198,20 @@ func deadCode(k int) []*model.N {
 		model.If(model.Bool(false), model.Block(model.ExprS(model.Id("never_defined")), model.Print(model.Bin("/", model.Num(1), model.Num(0))), model.Break()), nil),
 		model.Fun(fmt.Sprintf("unused_%d", k), []string{"p"}, model.ExprS(model.Id("never_defined")), model.Return(model.Id("p"))),
 		model.While(model.Bool(false), model.Block(model.Print(model.Str("dead")))),
+		model.If(model.Bool(true), model.Block(), model.Block(model.Var(fmt.Sprintf("unused_v%d", k), model.Num(0)), model.Print(model.Str("dead")))),
+		model.ExprS(model.Log(model.KwAnd, model.Bool(false), model.Grp(model.Bin("/", model.Num(1), model.Num(0))))),
+		model.ExprS(model.Log("||", model.Bool(true), model.Id("never_defined"))),
+	}
+}
+
+// unreachableTail: statements placed directly (not wrapped in anything) after an unconditional
+// থামো / চালিয়ে_যাও / ফেরত of a statement list: never executed, but members of that very block.
+func unreachableTail(k int) []*model.N {
+	return []*model.N{
+		model.Var(fmt.Sprintf("unused_t%d", k), model.Num(0)),
+		model.Print(model.Str("dead")),
+		model.Fun(fmt.Sprintf("unused_f%d", k), nil, model.Return(model.Num(1))),
+		model.VarList([]string{fmt.Sprintf("unused_a%d", k), fmt.Sprintf("unused_b%d", k)}, []*model.N{model.Num(1), nil}),
 	}
 }
 
@@ -358,6 +372,46 @@ func C18(c *fw.Ctx) {
 					continue
 				}
 				corpus = append(corpus, item{model.Render(parenAll(buildScopeProgram(hist))), "", "scope-history", every(&n, 41)})
+			}
+		}
+	}
+	// a name of the enclosing scope declared again inside a block that also holds a jump
+	{
+		id, num := model.Id, model.Num
+		outer := []func() *model.N{
+			func() *model.N { return model.Var("nm", model.Str("outer")) },
+			func() *model.N { return model.Fun("nm", nil, model.Return(model.Str("outer-fn"))) },
+		}
+		inner := []func() []*model.N{
+			func() []*model.N { return []*model.N{model.Var("nm", model.Str("inner"))} },
+			func() []*model.N { return []*model.N{model.Fun("nm", nil, model.Return(model.Str("inner-fn")))} },
+			func() []*model.N { return []*model.N{model.VarList([]string{"other", "nm"}, []*model.N{num(1), model.Str("inner-list")})} },
+			func() []*model.N { return []*model.N{model.Fun("helper", nil, model.Return(num(1))), model.ExprS(model.Asg("nm", model.Str("assigned")))} },
+		}
+		blocks := []func(body []*model.N) []*model.N{
+			func(b []*model.N) []*model.N {
+				return []*model.N{model.While(model.Bool(true), model.Block(append(b, model.Print(id("nm")), model.Break())...))}
+			},
+			func(b []*model.N) []*model.N {
+				return []*model.N{model.For(model.Var("i", num(0)), model.Bin("<", id("i"), num(2)), model.Asg("i", model.Bin("+", id("i"), num(1))), model.Block(append(b, model.Print(id("nm")), model.Continue())...))}
+			},
+			func(b []*model.N) []*model.N {
+				return []*model.N{model.Fun("run", nil, model.While(model.Bool(true), model.Block(append(b, model.Print(id("nm")), model.Return(num(0)))...))), model.ExprS(model.CallN("run"))}
+			},
+			func(b []*model.N) []*model.N {
+				return []*model.N{model.Fun("run2", nil, model.Block(append(b, model.Print(id("nm")), model.Return(num(0)))...)), model.ExprS(model.CallN("run2"))}
+			},
+		}
+		for _, o := range outer {
+			for _, in := range inner {
+				for _, bl := range blocks {
+					prog := []*model.N{o()}
+					prog = append(prog, bl(in())...)
+					prog = append(prog, model.Print(id("nm")))
+					prog = append(prog, bl(in())...)
+					prog = append(prog, model.Print(id("nm")))
+					corpus = append(corpus, item{model.Render(parenAll(prog)), "", "shadowing-beside-a-jump", true})
+				}
 			}
 		}
 	}
@@ -629,7 +683,7 @@ func C18(c *fw.Ctx) {
 			var nl []*model.N
 			for _, s := range *lp {
 				k++
-				nl = append(nl, deadCode(k)[k%3])
+				nl = append(nl, deadCode(k)[k%6])
 				nl = append(nl, s)
 			}
 			k++
@@ -637,6 +691,34 @@ func C18(c *fw.Ctx) {
 			*lp = nl
 		}
 		checkT("dead-code", "every statement boundary", dp)
+		{
+			// unreachable tails: after every unconditional jump of every statement list (all at once, and
+			// each form of tail alone)
+			for form := -1; form < 4; form++ {
+				tp := cloneProg(prog)
+				var tl []*[]*model.N
+				stmtLists(&tp, &tl)
+				n := 0
+				for _, lp := range tl {
+					var nl []*model.N
+					for _, s := range *lp {
+						nl = append(nl, s)
+						if s != nil && (s.K == "break" || s.K == "continue" || s.K == "return") {
+							n++
+							if form < 0 {
+								nl = append(nl, unreachableTail(n)...)
+							} else {
+								nl = append(nl, unreachableTail(n)[form])
+							}
+						}
+					}
+					*lp = nl
+				}
+				if n > 0 {
+					checkT("dead-code", fmt.Sprintf("unreachable tail (form %d) after every jump", form), tp)
+				}
+			}
+		}
 		if it.single {
 			cnt := 0
 			tmp := cloneProg(prog)
